@@ -327,9 +327,11 @@ def P(detector, **kw) -> None:  # noqa: N802 - referenced from YAML as pyxsim.pr
             FAULTS_FIRED[name] = FAULTS_FIRED.get(name, 0) + 1
             ev["raised"] = name
             msg = f"injected:{tag}:{name}"
-            if name == "ProbeError":
-                raise ProbeError(42, msg)
-            raise EXC[name](msg)
+            err = ProbeError(42, msg) if name == "ProbeError" else EXC[name](msg)
+            if f.get("noted"):
+                # an error that already carries a note of its own when it leaves the model
+                err.add_note("note attached by the model itself")
+            raise err
 
     # randomness
     draws = 0.0
